@@ -162,10 +162,16 @@ class BehavioralRTLIRToVVisitorL2( BehavioralRTLIRToVVisitorL1 ):
       body.extend( s.visit( stmt ) )
     make_indent( body, 1 )
 
+    cond = f'{loop_var} {cmp_op} {end}'
+    if node.step._value < 0:
+      # The unsigned loop variable wraps around instead of getting negative
+      # when the last value is smaller than the step: range(5, 0, -2)
+      cond += f' && {loop_var} <= {start}'
+
     for_begin = \
-      'for ( int unsigned {v} = {s}; {v} {comp} {t}; {v} {inc}= {stp} ){begin}'.format(
-      v = loop_var, s = start, t = end, stp = step_abs,
-      comp = cmp_op, inc = inc_op, begin = begin
+      'for ( int unsigned {v} = {s}; {cond}; {v} {inc}= {stp} ){begin}'.format(
+      v = loop_var, s = start, cond = cond, stp = step_abs,
+      inc = inc_op, begin = begin
     )
 
     # Assemble for statement
